@@ -260,6 +260,16 @@ func isWriteCall(p *Prog, ins ssa.Instruction) bool {
 	if f == nil || p.InModule(f) {
 		return false
 	}
+	// diagnostics on standard error are not output of the program in the sense of any property
+	if len(cc.Args) > 0 {
+		a := cc.Args[0]
+		if mi, ok := a.(*ssa.MakeInterface); ok {
+			a = mi.X
+		}
+		if isGlobalLoad(a, "os", "Stderr") {
+			return false
+		}
+	}
 	if f.Signature.Recv() != nil {
 		switch f.Name() {
 		case "Write", "WriteString", "WriteByte", "WriteRune", "ReadFrom", "Flush", "Sync":
@@ -386,7 +396,17 @@ func (p *Prog) inputChannelsOfGo(g *ssa.Go) []ssa.Value {
 		}
 		for _, i := range p.recvParamIndexes(callee) {
 			if i+off < len(args) {
-				out = append(out, args[i+off])
+				a := args[i+off]
+				// inside a named goroutine body the channel is a parameter of the body: the
+				// spawner knows it as the corresponding argument of the go statement
+				if prm, ok := a.(*ssa.Parameter); ok && prm.Parent() == body {
+					for k, bp := range body.Params {
+						if bp == prm && k < len(g.Call.Args) {
+							a = g.Call.Args[k]
+						}
+					}
+				}
+				out = append(out, a)
 			}
 		}
 	}
@@ -400,7 +420,15 @@ func (p *Prog) inputChannelsOfGo(g *ssa.Go) []ssa.Value {
 		}
 		// direct receive in the body on a captured variable
 		if u, ok := ins.(*ssa.UnOp); ok && u.Op == token.ARROW {
-			out = append(out, u.X)
+			x := u.X
+			if prm, ok := x.(*ssa.Parameter); ok && prm.Parent() == body {
+				for k, bp := range body.Params {
+					if bp == prm && k < len(g.Call.Args) {
+						x = g.Call.Args[k]
+					}
+				}
+			}
+			out = append(out, x)
 		}
 	})
 	return out
@@ -694,22 +722,39 @@ func (p *Prog) checkJoin(F *ssa.Function, g *ssa.Go) joinResult {
 			if c, isCall := i.(*ssa.Call); isCall {
 				if f := c.Call.StaticCallee(); f != nil && calleeFullName(f) == "(*sync.WaitGroup).Add" && varRoot(c.Call.Args[0]) == sig.obj {
 					if n, isC := constInt(c.Call.Args[1]); isC && n >= 1 && instrDominates(i, g) {
-						// no other go on the same WaitGroup between Add and this go
-						between := false
-						if i.Block() == g.Block() {
-							for k := instrIndex(i) + 1; k < instrIndex(g); k++ {
-								if _, isGo := g.Block().Instrs[k].(*ssa.Go); isGo {
-									between = true
+						// this Add is not used up by other goroutines of the same WaitGroup started
+						// between it and this go statement (with no further Add in between)
+						isAdd := func(x ssa.Instruction) bool {
+							c2, ok := x.(*ssa.Call)
+							if !ok {
+								return false
+							}
+							f2 := c2.Call.StaticCallee()
+							return f2 != nil && calleeFullName(f2) == "(*sync.WaitGroup).Add" && varRoot(c2.Call.Args[0]) == sig.obj
+						}
+						used := int64(0)
+						for _, g2 := range goStatements(F) {
+							if g2 == g || !p.goSignalsWaitGroup(g2, sig.obj) {
+								continue
+							}
+							q1 := pathQuery{avoid: func(x ssa.Instruction) bool { return x == ssa.Instruction(g) || isAdd(x) }, goal: func(x ssa.Instruction) bool { return x == ssa.Instruction(g2) }}
+							q2 := pathQuery{avoid: isAdd, goal: func(x ssa.Instruction) bool { return x == ssa.Instruction(g) }}
+							if p1, _ := q1.search(i.Block(), instrIndex(i)); p1 != nil {
+								if p2, _ := q2.search(g2.Block(), instrIndex(g2)); p2 != nil {
+									used++
 								}
 							}
 						}
-						if !between {
+						if used < n {
 							ok = true
 						}
 					}
 				}
 			}
 		})
+		if !ok && p.countedAdd(F, g, sig.obj) {
+			ok = true
+		}
 		if !ok {
 			res.Problems = append(res.Problems, "no WaitGroup.Add precedes the go statement: Wait may return before the goroutine has run")
 		}
@@ -745,4 +790,208 @@ func goStatements(fn *ssa.Function) []*ssa.Go {
 		}
 	})
 	return out
+}
+
+// goSignalsWaitGroup: the goroutine started by g2 calls Done (directly or deferred) on the WaitGroup wg of
+// the spawner's frame.
+func (p *Prog) goSignalsWaitGroup(g2 *ssa.Go, wg ssa.Value) bool {
+	body := callTarget(g2)
+	if body == nil || body.Blocks == nil {
+		return true // unknown: assume it does
+	}
+	for _, s := range signalSites(body) {
+		if s.kind != "waitgroup" {
+			continue
+		}
+		obj := s.obj
+		if prm, ok := obj.(*ssa.Parameter); ok {
+			for i, bp := range body.Params {
+				if bp == prm && i < len(g2.Call.Args) {
+					obj = varRoot(g2.Call.Args[i])
+				}
+			}
+		}
+		if obj == wg {
+			return true
+		}
+	}
+	return false
+}
+
+// ---- counted WaitGroup.Add ------------------------------------------------------------
+//
+// `n := 1; if a { n++ }; if b { n++ }; wg.Add(n); go …; if a { go … }; if b { go … }`: the argument of the
+// single Add is a constant plus one for each of a list of branch conditions; the goroutines signalling the
+// WaitGroup are started once each, unconditionally or under exactly one of those conditions.  SSA values are
+// immutable, so equal condition values mean equal outcomes: the count is exact on every path.
+
+type condTerm struct {
+	cond ssa.Value
+	val  bool
+}
+
+// symbolicCount decomposes v into k + Σ [cond == val].
+func symbolicCount(v ssa.Value, depth int) (int64, []condTerm, bool) {
+	if depth > 8 {
+		return 0, nil, false
+	}
+	v = trivialPhi(v)
+	if k, ok := constInt(v); ok {
+		return k, nil, true
+	}
+	switch x := v.(type) {
+	case *ssa.BinOp:
+		if x.Op == token.ADD {
+			if k, ok := constInt(x.Y); ok {
+				k0, c0, ok0 := symbolicCount(x.X, depth+1)
+				return k0 + k, c0, ok0
+			}
+			if k, ok := constInt(x.X); ok {
+				k0, c0, ok0 := symbolicCount(x.Y, depth+1)
+				return k0 + k, c0, ok0
+			}
+		}
+	case *ssa.Phi:
+		if len(x.Edges) != 2 {
+			return 0, nil, false
+		}
+		k0, c0, ok0 := symbolicCount(x.Edges[0], depth+1)
+		k1, c1, ok1 := symbolicCount(x.Edges[1], depth+1)
+		if !ok0 || !ok1 || len(c0) != len(c1) {
+			return 0, nil, false
+		}
+		for i := range c0 {
+			if c0[i] != c1[i] {
+				return 0, nil, false
+			}
+		}
+		hi, lo := 0, 1
+		if k1 == k0+1 {
+			hi, lo = 1, 0
+		} else if k0 != k1+1 {
+			return 0, nil, false
+		}
+		b := x.Block()
+		d := b.Idom()
+		if d == nil {
+			return 0, nil, false
+		}
+		ifi, ok := lastInstr(d).(*ssa.If)
+		if !ok || len(d.Succs) != 2 || d.Succs[0] == d.Succs[1] {
+			return 0, nil, false
+		}
+		side := func(p *ssa.BasicBlock) int { // 0 true side, 1 false side, -1 unknown
+			for s := 0; s < 2; s++ {
+				succ := d.Succs[s]
+				if succ == b {
+					if p == d {
+						return s
+					}
+					continue
+				}
+				if succ == p || succ.Dominates(p) {
+					return s
+				}
+			}
+			return -1
+		}
+		sh, sl := side(b.Preds[hi]), side(b.Preds[lo])
+		if sh < 0 || sl < 0 || sh == sl {
+			return 0, nil, false
+		}
+		kk := k0
+		if hi == 0 {
+			kk = k1
+		}
+		return kk, append(append([]condTerm{}, c0...), condTerm{ifi.Cond, sh == 0}), true
+	}
+	return 0, nil, false
+}
+
+// countedAdd: the go statement g (and every other goroutine signalling wg) is covered by one WaitGroup.Add
+// whose argument counts exactly the goroutines that are started.
+func (p *Prog) countedAdd(F *ssa.Function, g *ssa.Go, wg ssa.Value) bool {
+	var adds []*ssa.Call
+	eachInstr(F, func(i ssa.Instruction) {
+		if c, ok := i.(*ssa.Call); ok {
+			if f := c.Call.StaticCallee(); f != nil && calleeFullName(f) == "(*sync.WaitGroup).Add" && varRoot(c.Call.Args[0]) == wg {
+				adds = append(adds, c)
+			}
+		}
+	})
+	if len(adds) != 1 {
+		return false
+	}
+	add := adds[0]
+	k, terms, ok := symbolicCount(add.Call.Args[1], 0)
+	if !ok {
+		return false
+	}
+	base := dominatingFacts(add.Block())
+	isBase := func(f EdgeFact) bool {
+		for _, b := range base {
+			if b.Cond == f.Cond && b.Val == f.Val {
+				return true
+			}
+		}
+		return false
+	}
+	uncond := int64(0)
+	var got []condTerm
+	seenG := false
+	for _, g2 := range goStatements(F) {
+		if !p.goSignalsWaitGroup(g2, wg) {
+			continue
+		}
+		if g2 == g {
+			seenG = true
+		}
+		if !instrDominates(add, g2) || pathBetween(g2, g2) {
+			return false
+		}
+		var own []EdgeFact
+		for _, f := range dominatingFacts(g2.Block()) {
+			if !isBase(f) {
+				own = append(own, f)
+			}
+		}
+		if len(own) > 1 {
+			return false
+		}
+		// started on every path on which its condition holds: no way from the Add to a return around it
+		q := pathQuery{avoid: func(i ssa.Instruction) bool { return i == ssa.Instruction(g2) }, goal: isReturn,
+			edgeOK: func(a, b *ssa.BasicBlock) bool {
+				if len(own) == 1 {
+					if ifi, ok := lastInstr(a).(*ssa.If); ok && ifi.Cond == own[0].Cond && len(a.Succs) == 2 && a.Succs[0] != a.Succs[1] {
+						return (b == a.Succs[0]) == own[0].Val
+					}
+				}
+				return true
+			}}
+		if path, _ := q.search(add.Block(), instrIndex(add)); path != nil {
+			return false
+		}
+		if len(own) == 0 {
+			uncond++
+		} else {
+			got = append(got, condTerm{own[0].Cond, own[0].Val})
+		}
+	}
+	if !seenG || uncond != k || len(got) != len(terms) {
+		return false
+	}
+	used := make([]bool, len(terms))
+	for _, t := range got {
+		found := false
+		for i, u := range terms {
+			if !used[i] && u == t {
+				used[i], found = true, true
+				break
+			}
+		}
+		if !found {
+			return false
+		}
+	}
+	return true
 }
